@@ -219,7 +219,7 @@ pub fn form_lines(f: &str, k: &str) -> Vec<String> {
         "heredash" => vec!["cat <<-E".into(), format!("\t{k}"), "\tE".into()],
         "cmdsub" => vec!["probe $(".into(), format!("echo {k}"), ")".into()],
         "arith" => vec!["probe $((1 +".into(), "2))".into()],
-        "param" => vec![format!("probe \"${{u:-{k}"), "z}\"".into()],
+        "param" => vec![format!("probe \"${{nil:-{k}"), "z}\"".into()],
         "blank" => vec!["if true; then".into(), "".into(), "# c".into(), format!("probe {k}"), "fi".into()],
         _ => vec![],
     };
@@ -248,16 +248,17 @@ pub fn err_lines(f: &str) -> Vec<String> {
 }
 
 /// What the user types for the session: chunks of input, an end-of-file
-/// condition after each (the last one for ever).  `alive` logic is the
-/// specification's business: this renders every event.
-pub fn render(evs: &[Ev]) -> Vec<String> {
+/// condition after each (the last one for ever).  `cut`: the shell gives up
+/// at the end-of-file condition inside the last event (a multi-line construct).
+pub fn render(evs: &[Ev], cut: bool) -> Vec<String> {
     let mut chunks: Vec<String> = vec![];
     let mut cur = String::new();
     let line = |cur: &mut String, l: &str| {
         cur.push_str(l);
         cur.push('\n');
     };
-    for e in evs {
+    for (idx, e) in evs.iter().enumerate() {
+        let last = idx + 1 == evs.len();
         match e.t.as_str() {
             "probe" => line(&mut cur, &format!("probe {}", e.k)),
             "echo" => line(&mut cur, &format!("echo {}", e.k)),
@@ -276,6 +277,10 @@ pub fn render(evs: &[Ev]) -> Vec<String> {
                     line(&mut cur, l);
                     if e.i as usize == j + 1 && j + 1 < ls.len() {
                         chunks.push(std::mem::take(&mut cur));
+                        if last && cut {
+                            // the session ends here: the rest of the construct is never typed
+                            break;
+                        }
                     }
                 }
             }
@@ -378,7 +383,7 @@ pub fn random_cfg<R: Rng>(rng: &mut R) -> Cfg {
 
 /// A random session obeying Gen_Prompt!Allowed-like preconditions (the trace
 /// specification checks them again and classes a record "skip" otherwise).
-pub fn random_session<R: Rng>(rng: &mut R) -> (Cfg, Vec<Ev>) {
+pub fn random_session<R: Rng>(rng: &mut R) -> (Cfg, Vec<Ev>, bool) {
     let c = random_cfg(rng);
     let n = rng.gen_range(2..=9);
     let mut evs: Vec<Ev> = vec![];
@@ -389,6 +394,7 @@ pub fn random_session<R: Rng>(rng: &mut R) -> (Cfg, Vec<Ev>) {
     let can_ignore = c.interactive() && can_eof;
     let mut jobs = 0;
     let mut eofs = 0;
+    let mut cut = false;
     for _ in 0..n {
         let r = rng.gen_range(0..100);
         let k = (*["a", "b", "k"].choose(rng).unwrap()).to_string();
@@ -435,6 +441,7 @@ pub fn random_session<R: Rng>(rng: &mut R) -> (Cfg, Vec<Ev>) {
                 let e = ev("multi", f, &k, rng.gen_range(1..nl));
                 if !(can_ignore && ign) {
                     evs.push(e);
+                    cut = true;
                     break;
                 }
                 e
@@ -458,5 +465,5 @@ pub fn random_session<R: Rng>(rng: &mut R) -> (Cfg, Vec<Ev>) {
         };
         evs.push(e);
     }
-    (c, evs)
+    (c, evs, cut)
 }
